@@ -226,8 +226,17 @@ pub fn run(run: &mut Run) {
     run.sub("maps");
     let order_prog = Program::compile("m.map(k, k)").unwrap();
     let key_sets = all_lists(&[1, 9, 0, 2], 4);
+    // bodies: the scripted host predicate / transform, and the constant bodies `true` / `false`
+    // (a macro over a map yields a list / a bool whatever its body is)
+    let map_bodies: Vec<(E, E)> = vec![
+        (pred_host.clone(), tr_host.clone()),
+        (E::Lit(MV::Bool(true)), x()),
+        (E::Lit(MV::Bool(false)), x()),
+        (E::Lit(MV::Bool(true)), E::Lit(MV::Bool(true))),
+    ];
     for form in FORMS.iter() {
-        let e_var = macro_expr(*form, E::Var("m".into()), "x", pred_host.clone(), tr_host.clone());
+      for (pred_b, tr_b) in map_bodies.iter() {
+        let e_var = macro_expr(*form, E::Var("m".into()), "x", pred_b.clone(), tr_b.clone());
         let prog = Program::compile(&e_var.src()).unwrap();
         for ks in key_sets.iter() {
             // distinct keys only
@@ -268,10 +277,57 @@ pub fn run(run: &mut Run) {
             run.trans(2);
             let got_log = log.lock().unwrap().clone();
             // model: the same macro over the keys in the observed order
-            let e_model = macro_expr(*form, E::Lit(MV::List(order.clone())), "x", pred_host.clone(), tr_host.clone());
+            let e_model = macro_expr(*form, E::Lit(MV::List(order.clone())), "x", pred_b.clone(), tr_b.clone());
             env.frames.truncate(1);
             judge(run, "map", &format!("{}{}", form.0, form.1), &e_model, &format!("`{}` with m={} (key order {:?})", e_var.src(), m.show(), order), &mut env, &got, &got_log);
+            // the same over the map written as a literal when the key order cannot matter
+            if ks.len() <= 1 {
+                let e_lit = macro_expr(*form, E::Lit(m.clone()), "x", pred_b.clone(), tr_b.clone());
+                log.lock().unwrap().clear();
+                let got = subj::run_src(&e_lit.src(), &base_ctx);
+                run.trans(2);
+                let got_log = log.lock().unwrap().clone();
+                env.frames.truncate(1);
+                judge(run, "map-lit", &format!("{}{}", form.0, form.1), &e_model, &format!("`{}`", e_lit.src()), &mut env, &got, &got_log);
+            }
         }
+      }
+    }
+
+    // ---- constant bodies over lists (variable and literal ranges, lengths 0..3)
+    run.sub("constant-bodies");
+    {
+        let ls = all_lists(&[1, 9, 0], 3);
+        let bodies: Vec<(E, E)> = vec![
+            (E::Lit(MV::Bool(true)), x()),
+            (E::Lit(MV::Bool(false)), x()),
+            (E::Lit(MV::Bool(true)), E::Lit(MV::Bool(true))),
+            (E::Lit(MV::Bool(true)), E::Lit(MV::Null)),
+            (E::Bin("==", b(x()), b(x())), E::Lit(MV::List(vec![]))),
+        ];
+        for form in FORMS.iter() {
+            for (pred_b, tr_b) in bodies.iter() {
+                for l in ls.iter() {
+                    for lit_range in [false, true] {
+                        if !run.take() {
+                            continue;
+                        }
+                        let range = if lit_range { E::Lit(ints(l)) } else { E::Var("l".into()) };
+                        let e = macro_expr(*form, range, "x", pred_b.clone(), tr_b.clone());
+                        let mut ctx = base_ctx.new_inner_scope();
+                        ctx.add_variable_from_value("l", ints(l).to_value());
+                        log.lock().unwrap().clear();
+                        let got = subj::run_src(&e.src(), &ctx);
+                        run.trans(2);
+                        let got_log = log.lock().unwrap().clone();
+                        env.frames.truncate(1);
+                        env.set("l", ints(l));
+                        judge(run, "const-body", &format!("{}{}", form.0, form.1), &e, &format!("`{}` with l={:?}", e.src(), l), &mut env, &got, &got_log);
+                    }
+                }
+            }
+        }
+        env.frames.truncate(1);
     }
 
     // ---- chained macros: a list-valued macro as the range of another one, with the same and with
